@@ -218,7 +218,11 @@ func genWireCase(t *rapid.T, allowID15 bool) *WireCase {
 			for i := range c.PadBefore {
 				c.PadBefore[i] = rapid.SampledFrom([]int{0, 0, 0, 1, 2, 3, 4, 5}).Draw(t, "padbefore")
 			}
-			c.PadAfter = rapid.SampledFrom([]int{0, 0, 1, 2, 3, 4, 7}).Draw(t, "padafter")
+			if len(c.PadBefore) > 0 && rapid.IntRange(0, 9).Draw(t, "longpad") == 0 {
+				// a long run of padding bytes in front of one element (legal: any number of zero bytes)
+				c.PadBefore[rapid.IntRange(0, len(c.PadBefore)-1).Draw(t, "longpadat")] = rapid.SampledFrom([]int{6, 15, 16, 31, 32, 63, 64, 65, 70, 127, 128, 129, 255, 256, 300, 1000}).Draw(t, "longpadlen")
+			}
+			c.PadAfter = rapid.SampledFrom([]int{0, 0, 1, 2, 3, 4, 7, 64, 200}).Draw(t, "padafter")
 			c.ExtraWords = rapid.SampledFrom([]int{0, 0, 0, 1, 2}).Draw(t, "extrawords")
 		}
 		if allowID15 && m.ExtKind == "onebyte" && rapid.IntRange(0, 7).Draw(t, "id15") == 0 {
